@@ -127,6 +127,51 @@ Proof.
 Qed.
 Print Assumptions C09_pderiv_is_formal_derivative.
 
+(* ---- integrated-Legendre family ElementLinePp(p), ElementQuadP(p), p = 1..5 (bound: the list legendre_elements) ----
+   The real lbasis and _reval_legendre are executed symbolically; the scale sqrt((2n-1)/2) of mode n is kept as a FORMAL
+   indeterminate c_n (extra polynomial variable), so every identity below holds for every value of the scales, in
+   particular the real ones; NumPy's float coefficients of Legendre(c).integ() (round-off ~1e-17) are snapped to the
+   rational within 4e-16, so the statements are about the ideal coefficients and this family's tie to the source is
+   the tolerance correspondence (1e-9) run by the check, not exact evaluation. *)
+Theorem C09_legendre_deriv_is_derivative :
+  forall (R : Type) (rO rI : R) (radd rmul rsub : R -> R -> R) (ropp : R -> R) (req : R -> R -> Prop) (phi : Q -> R),
+    Equivalence req -> ring_eq_ext radd rmul ropp req -> ring_theory rO rI radd rmul rsub ropp req ->
+    ring_morph rO rI radd rmul rsub ropp req 0%Q 1%Q Qplus Qmult Qminus Qopp Qeq_bool phi ->
+    forall e, In e legendre_elements -> forall b, In b (e_basis e) ->
+      bfun_spec R rO rI radd rmul ropp req phi (e_dim e) b.
+Proof.
+  intros R rO rI radd rmul rsub ropp req phi H1 H2 H3 H4 e He.
+  apply (deriv_ok_sound R rO rI radd rmul rsub ropp req phi H1 H2 H3 H4).
+  exact (proj1 (Forall_forall _ _) legendre_deriv_ok e He).
+Qed.
+Print Assumptions C09_legendre_deriv_is_derivative.
+
+(* endpoint / vertex values: every basis function (vertex functions AND all integrated-Legendre modes) takes the value
+   delta_ij at every located DOF (the endpoints resp. the four vertices), for EVERY value of the scales *)
+Theorem C09_legendre_vertex_values :
+  forall (R : Type) (rO rI : R) (radd rmul rsub : R -> R -> R) (ropp : R -> R) (req : R -> R -> Prop) (phi : Q -> R),
+    Equivalence req -> ring_eq_ext radd rmul ropp req -> ring_theory rO rI radd rmul rsub ropp req ->
+    ring_morph rO rI radd rmul rsub ropp req 0%Q 1%Q Qplus Qmult Qminus Qopp Qeq_bool phi ->
+    forall e, In e legendre_elements -> duality_param_spec R rO rI radd rmul req phi e.
+Proof.
+  intros R rO rI radd rmul rsub ropp req phi H1 H2 H3 H4 e He.
+  apply (duality_param_ok_sound R rO rI radd rmul rsub ropp req phi H1 H2 H3 H4).
+  exact (proj1 (Forall_forall _ _) legendre_dual_ok e He).
+Qed.
+Print Assumptions C09_legendre_vertex_values.
+
+Theorem C09_legendre_partition_of_unity :
+  forall (R : Type) (rO rI : R) (radd rmul rsub : R -> R -> R) (ropp : R -> R) (req : R -> R -> Prop) (phi : Q -> R),
+    Equivalence req -> ring_eq_ext radd rmul ropp req -> ring_theory rO rI radd rmul rsub ropp req ->
+    ring_morph rO rI radd rmul rsub ropp req 0%Q 1%Q Qplus Qmult Qminus Qopp Qeq_bool phi ->
+    forall e, In e legendre_elements -> pou_spec R rO rI radd rmul req phi e.
+Proof.
+  intros R rO rI radd rmul rsub ropp req phi H1 H2 H3 H4 e He.
+  apply (pou_ok_sound R rO rI radd rmul rsub ropp req phi H1 H2 H3 H4).
+  exact (proj1 (Forall_forall _ _) legendre_pou_ok e He).
+Qed.
+Print Assumptions C09_legendre_partition_of_unity.
+
 (* ---- mapped derivatives (any non-degenerate affine cell) ---- *)
 
 (* chain rule, for EVERY polynomial p in at most n variables, every affine map F(x) = b + A x of a d-dimensional
